@@ -19,7 +19,8 @@ class D(Driver):
         "cases: (a) every string over the alphabet 'Mlza01.-e ,' up to length 6 (quick) / 7 (thorough); "
         "(b) every command x number-form x separator combination for arity<=2 commands and sampled ones for the rest; "
         "(c) grammar-derived random strings of 1-30 commands with random valid lexical forms; (d) mutations of (c); "
-        "(e) print->parse round trips over extreme floats.  Non-trivial = a distinct string the reference grammar accepts "
+        "(e) print->parse round trips over extreme floats; (f) mode history: every string of (c)/(d) and one in eight of (a)/(b) is parsed again "
+        "in the other mode (exploded / not) and then in the first mode again, each call judged against the grammar.  Non-trivial = a distinct string the reference grammar accepts "
         "containing >= 2 number tokens that the real parser was judged on (enumerations are distinct by construction, "
         "random strings are de-duplicated by hash), plus distinct round-tripped command sequences."
     )
@@ -38,7 +39,7 @@ class D(Driver):
         ("picosvg.svg_types", "SVGPath.from_commands"),
     )
     deciding_monitors = ("parse_svg_path",)
-    feature_floors = {"ok": 5000, "roundtrip_ok": 600}
+    feature_floors = {"ok": 5000, "roundtrip_ok": 600, "mode_history_strings_with_implicit_repeats": 50}
     nt_floor = {"quick": 500, "thorough": 2000}
     time_budget = {"quick": 120, "thorough": 900}
 
@@ -81,6 +82,20 @@ class D(Driver):
             pass  # recorded by the monitor as foreign_exception
         last = parsemon.STATE["last"]
         res["evals"] += 1
+        # mode history: the same string again in the other mode, then in the first mode again; every call
+        # is judged by the monitor against the grammar (a tokenizer that remembers what an earlier call
+        # did with the string answers the later call wrongly).  Every string outside the big
+        # enumerations, one in eight inside them.
+        self._hk = getattr(self, "_hk", 0) + 1
+        if hash_nt or self._hk % 8 == 0:
+            for e2 in (not exploded, exploded):
+                try:
+                    list(self.parse(s, e2))
+                except Exception:
+                    pass
+            bump(res["features"], "mode_history_strings")
+            if last is not None and last[0] == "ok" and last[1].get("nrepeat"):
+                bump(res["features"], "mode_history_strings_with_implicit_repeats")
         if last is None:
             bump(res["counters"], "monitor_missed")
             return
@@ -275,7 +290,7 @@ class D(Driver):
         res = new_result()
         res["_ntc"] = 0
         if rp.get("kind") == "string":
-            self._judge_string(rp["text"], res, exploded=rp.get("exploded", True))
+            self._judge_string(rp["text"], res, exploded=rp.get("exploded", True), hash_nt=True)  # with the mode history
         else:
             class R:  # feed the recorded commands through the same round-trip check
                 pass
